@@ -1022,7 +1022,12 @@ impl<'a> AstResolver<'a> {
             .map_err(|e| match e {
                 DefineTypeError::TypeAlreadyDefined => panic!("type should not be already defined"),
                 DefineTypeError::CannotDefineResource => panic!("type should not be a resource"),
-                DefineTypeError::InvalidExternName { .. } => panic!("parsed an invalid type name"),
+                DefineTypeError::InvalidExternName { name, source } => Error::InvalidExternName {
+                    name,
+                    kind: ExternKind::Export,
+                    span: id.span,
+                    source,
+                },
                 DefineTypeError::ExportConflict { name } => Error::DeclarationConflict {
                     name,
                     span: id.span,
